@@ -1,10 +1,24 @@
 /-
   C10 — Staking and binding deposits follow their lifecycle exactly.   PROPERTY THEOREMS.
+
+  Model: MW.Model.Ledger (`Store.game` = the deposit-history bucket, `Store.credits`, `coinsOf`, `walletBalance`);
+  Spec: MW.Spec.Chain (`deposits own chain w` with `withdrawn` = "a transaction of the chain spends it",
+  `spendableAt` = the consensus maturity / sequence-lock rule, `balance`).
+  A staking / binding output OF A COINBASE needs both the coinbase maturity and the lock of its script: the
+  stored maturity is the max of the two (`deposit_credit_stk_cb`, `staking_cb_withdrawable_iff`).
+  Hypothesis `Inv c s chain` (MW.Lemmas.LedgerInv): the store holds the books of `chain`. It is established for
+  every history of connected / disconnected / reorganised blocks (LedgerConnect, LedgerRbk*, LedgerReorg*),
+  so each statement holds for whatever chain is current: a withdrawal whose block is reorganised away is
+  shown as not withdrawn again (`withdrawn_reverts`). `ObsHyp` = `Inv` + valid chain with heights = positions
+  + well-formed unspent index + 32-bit bounds (MW.Lemmas.LedgerObs2).
+  Proofs: MW/Lemmas/LedgerDeposit.lean; worked store `dpS` / `dpChain`: MW/Lemmas/LedgerDepositEx.lean.
 -/
 import MW.Model.Ledger
 import MW.Spec.Chain
+import MW.Lemmas.LedgerDeposit
+import MW.Lemmas.LedgerDepositEx
 namespace MW.Props.C10
-open MW MW.Model.Ledger MW.Spec.Chain
+open MW MW.Model.Ledger MW.Spec.Chain MW.Spec.Books MW.Lemmas.Ledger
 
 /-- the maturity the wallet records for a staking output is frozen period + 1, the sequence value
     consensus requires for spending it (`withdraw_sequence`, value part) -/
@@ -20,5 +34,366 @@ theorem deposit_not_standard (c : Cls) (h : c.isStaking = true ∨ c.isBinding =
   rcases h with h | h
   · simp [h]
   · cases hs : c.isStaking <;> simp [hs, h]
+
+-- ------------------------------------------------------------------ 1. appears exactly once
+
+/-- the deposit history holds one record per staking / binding deposit of the chain to the wallet — with
+    its binding flag, withdrawn flag, transaction, height and output index — and no other record -/
+theorem deposit_once {c : Ctx} {s : Store} {chain : List Block} (hI : Inv c s chain)
+    (hV : ChainValid c.own chain) (gk : GameKey) :
+    AMap.get s.game gk = some () ↔
+      ∃ d ∈ deposits c.own chain gk.wallet,
+        gk = ⟨gk.wallet, d.cls.isBinding, d.withdrawn, d.tx, d.height, d.idx⟩ :=
+  MW.Lemmas.Ledger.deposit_once hI hV gk
+
+/-- EXACTLY once: any record of the history at the outpoint of a deposit is the record of that deposit -/
+theorem deposit_record_unique {c : Ctx} {s : Store} {chain : List Block} (hI : Inv c s chain)
+    (hV : ChainValid c.own chain) {w : Wid} {d : Deposit} (hd : d ∈ deposits c.own chain w) (gk : GameKey)
+    (hg : AMap.get s.game gk = some ()) (ht : gk.tx = d.tx) (hv : gk.vout = d.idx) :
+    gk = ⟨w, d.cls.isBinding, d.withdrawn, d.tx, d.height, d.idx⟩ :=
+  MW.Lemmas.Ledger.deposit_record_unique hI hV hd gk hg ht hv
+
+/-- in particular the record with the opposite withdrawn flag is absent -/
+theorem deposit_unique {c : Ctx} {s : Store} {chain : List Block} (hI : Inv c s chain)
+    (hV : ChainValid c.own chain) {w : Wid} {d : Deposit} (hd : d ∈ deposits c.own chain w) :
+    AMap.get s.game ⟨w, d.cls.isBinding, !d.withdrawn, d.tx, d.height, d.idx⟩ = none :=
+  MW.Lemmas.Ledger.deposit_unique hI hV hd
+
+/-- distinct entries of the spec list are distinct outputs: an outpoint is at most one deposit -/
+theorem deposit_eq_of_outpoint {own : Own} {chain : List Block} (hV : ChainValid own chain) {w w' : Wid}
+    {d d' : Deposit} (hd : d ∈ deposits own chain w) (hd' : d' ∈ deposits own chain w')
+    (ht : d.tx = d'.tx) (hi : d.idx = d'.idx) : w = w' ∧ d = d' :=
+  MW.Lemmas.Ledger.deposit_eq_of_outpoint hV hd hd' ht hi
+
+-- ------------------------------------------------------------------ 2. right amount, address, frozen period
+
+/-- the credit the history listing joins the record with: amount, address, class and maturity of the
+    output (for an output of a coinbase: the larger of the coinbase maturity and the lock of its script),
+    spent exactly when a transaction of the chain spends it -/
+theorem deposit_credit {c : Ctx} {s : Store} {chain : List Block} (hI : Inv c s chain)
+    (hV : ChainValid c.own chain) {u : UCoin} (hc : CreatedIn c.own (occs chain) u)
+    (hd : isDeposit u.out.cls = true) :
+    ∃ cr, AMap.get s.credits u.credKey = some cr ∧ cr.amt = u.out.amt ∧ cr.sh = u.out.addr ∧
+      cr.cls = uclassOf u.out.cls ∧
+      cr.maturity = (if u.cb then max c.p.cbMaturity u.out.cls.maturity else u.out.cls.maturity) % 2^32 ∧
+      (cr.spent = true ↔ (u.tx, u.idx) ∈ spentOps (occs chain)) :=
+  MW.Lemmas.Ledger.deposit_credit hI hV hc hd
+
+/-- staking: stored maturity = frozen period + 1, so the FrozenPeriod shown (maturity − 1) is the frozen
+    period of the output script -/
+theorem deposit_credit_stk {c : Ctx} {s : Store} {chain : List Block} (hI : Inv c s chain)
+    (hV : ChainValid c.own chain) {u : UCoin} (hc : CreatedIn c.own (occs chain) u) {f : Nat}
+    (hf : u.out.cls = .stk f) (hcb : u.cb = false) (hb : f + 1 < 2^32) :
+    ∃ cr, AMap.get s.credits u.credKey = some cr ∧ cr.amt = u.out.amt ∧ cr.sh = u.out.addr ∧
+      cr.cls = .staking ∧ cr.maturity = f + 1 ∧ cr.maturity - 1 = f ∧
+      (cr.spent = true ↔ (u.tx, u.idx) ∈ spentOps (occs chain)) :=
+  MW.Lemmas.Ledger.deposit_credit_stk hI hV hc hf hcb hb
+
+/-- a staking output of a COINBASE: stored maturity = max (coinbase maturity) (frozen period + 1) -/
+theorem deposit_credit_stk_cb {c : Ctx} {s : Store} {chain : List Block} (hI : Inv c s chain)
+    (hV : ChainValid c.own chain) {u : UCoin} (hc : CreatedIn c.own (occs chain) u) {f : Nat}
+    (hf : u.out.cls = .stk f) (hcb : u.cb = true) (hb : f + 1 < 2^32) (hm : c.p.cbMaturity < 2^32) :
+    ∃ cr, AMap.get s.credits u.credKey = some cr ∧ cr.amt = u.out.amt ∧ cr.sh = u.out.addr ∧
+      cr.cls = .staking ∧ cr.maturity = max c.p.cbMaturity (f + 1) ∧
+      (cr.spent = true ↔ (u.tx, u.idx) ∈ spentOps (occs chain)) :=
+  MW.Lemmas.Ledger.deposit_credit_stk_cb hI hV hc hf hcb hb hm
+
+/-- per entry of the spec list: at the key (tx, height, vout) of the record there is a credit with the
+    deposit's amount, address (its class `d.cls` carries the frozen period / binding target), class
+    staking / binding, spent iff the deposit is withdrawn -/
+theorem deposit_entry {c : Ctx} {s : Store} {chain : List Block} (hI : Inv c s chain)
+    (hV : ChainValid c.own chain) {w : Wid} {d : Deposit} (hd : d ∈ deposits c.own chain w) :
+    ∃ (bh : BlkId) (cb : Bool) (cr : Credit),
+      AMap.get s.credits ⟨d.tx, ⟨d.height, bh⟩, d.idx⟩ = some cr ∧ cr.amt = d.amt ∧ cr.sh = d.addr ∧
+      cr.cls = uclassOf d.cls ∧ cr.cls ≠ .standard ∧
+      cr.maturity = (if cb then max c.p.cbMaturity d.cls.maturity else d.cls.maturity) % 2^32 ∧
+      (cr.spent = true ↔ d.withdrawn = true) :=
+  MW.Lemmas.Ledger.deposit_entry hI hV hd
+
+-- ------------------------------------------------------------------ 3. shown as withdrawn exactly while spent
+
+/-- the record is in the withdrawn partition exactly when the spec list says withdrawn -/
+theorem withdrawn_iff {c : Ctx} {s : Store} {chain : List Block} (hI : Inv c s chain)
+    (hV : ChainValid c.own chain) {w : Wid} {d : Deposit} (hd : d ∈ deposits c.own chain w) :
+    AMap.get s.game ⟨w, d.cls.isBinding, true, d.tx, d.height, d.idx⟩ = some () ↔ d.withdrawn = true :=
+  MW.Lemmas.Ledger.withdrawn_iff hI hV hd
+
+/-- … and in the not-withdrawn partition exactly when it says not withdrawn -/
+theorem unwithdrawn_iff {c : Ctx} {s : Store} {chain : List Block} (hI : Inv c s chain)
+    (hV : ChainValid c.own chain) {w : Wid} {d : Deposit} (hd : d ∈ deposits c.own chain w) :
+    AMap.get s.game ⟨w, d.cls.isBinding, false, d.tx, d.height, d.idx⟩ = some () ↔ d.withdrawn = false :=
+  MW.Lemmas.Ledger.unwithdrawn_iff hI hV hd
+
+/-- `withdrawn` of the spec list: a non-coinbase transaction of the chain spends the output -/
+theorem withdrawn_chain_iff {own : Own} {chain : List Block} {w : Wid} {d : Deposit}
+    (hd : d ∈ deposits own chain w) :
+    d.withdrawn = true ↔
+      ∃ b ∈ chain, ∃ t ∈ b.txs, t.cb = false ∧ ∃ x ∈ t.ins, x.tx = d.tx ∧ x.idx = d.idx :=
+  MW.Lemmas.Ledger.withdrawn_chain_iff hd
+
+/-- both together: shown as withdrawn exactly while a transaction of the current chain spends it -/
+theorem withdrawn_shown_iff {c : Ctx} {s : Store} {chain : List Block} (hI : Inv c s chain)
+    (hV : ChainValid c.own chain) {w : Wid} {d : Deposit} (hd : d ∈ deposits c.own chain w) :
+    AMap.get s.game ⟨w, d.cls.isBinding, true, d.tx, d.height, d.idx⟩ = some () ↔
+      ∃ b ∈ chain, ∃ t ∈ b.txs, t.cb = false ∧ ∃ x ∈ t.ins, x.tx = d.tx ∧ x.idx = d.idx :=
+  MW.Lemmas.Ledger.withdrawn_shown_iff hI hV hd
+
+/-- reverting: once no transaction of the current chain spends the deposit (the withdrawal was reorganised
+    away) the record is back in the not-withdrawn partition and the withdrawn one is gone -/
+theorem withdrawn_reverts {c : Ctx} {s : Store} {chain : List Block} (hI : Inv c s chain)
+    (hV : ChainValid c.own chain) {w : Wid} {d : Deposit} (hd : d ∈ deposits c.own chain w)
+    (hno : ¬ ∃ b ∈ chain, ∃ t ∈ b.txs, t.cb = false ∧ ∃ x ∈ t.ins, x.tx = d.tx ∧ x.idx = d.idx) :
+    AMap.get s.game ⟨w, d.cls.isBinding, false, d.tx, d.height, d.idx⟩ = some () ∧
+    AMap.get s.game ⟨w, d.cls.isBinding, true, d.tx, d.height, d.idx⟩ = none :=
+  MW.Lemmas.Ledger.withdrawn_reverts hI hV hd hno
+
+-- ------------------------------------------------------------------ 4. excluded from ordinary funds
+
+/-- a coin the wallet's coin query returns at the outpoint of a deposit has the deposit's class, never
+    `standard` (automatic coin selection and the spendable sum take class `standard` only) -/
+theorem excluded {c : Ctx} {s : Store} {chain : List Block} (H : ObsHyp c s chain) {w : Wid} {x : Coin}
+    (hx : x ∈ coinsOf s w) {d : Deposit} (hd : d ∈ deposits c.own chain w) (ht : d.tx = x.tx)
+    (hi : d.idx = x.idx) : x.cred.cls = uclassOf d.cls ∧ x.cred.cls ≠ .standard :=
+  MW.Lemmas.Ledger.excluded H hx hd ht hi
+
+/-- the same through the ledger entry behind the coin -/
+theorem excluded_entry {c : Ctx} {s : Store} {chain : List Block} (H : ObsHyp c s chain) {w : Wid} {x : Coin}
+    (hx : x ∈ coinsOf s w) :
+    ∃ u ∈ (bookOf c.p c.own chain).L, u.wallet = w ∧ coinU c.p u = x ∧
+      (isDeposit u.out.cls = true → x.cred.cls ≠ .standard) :=
+  MW.Lemmas.Ledger.excluded_entry H hx
+
+/-- a `standard` coin of the wallet is no deposit of the chain -/
+theorem standard_not_deposit {c : Ctx} {s : Store} {chain : List Block} (H : ObsHyp c s chain) {w : Wid}
+    {x : Coin} (hx : x ∈ coinsOf s w) (hs : x.cred.cls = .standard) :
+    ∀ d ∈ deposits c.own chain w, ¬ (d.tx = x.tx ∧ d.idx = x.idx) :=
+  MW.Lemmas.Ledger.standard_not_deposit H hx hs
+
+/-- the spendable amount WalletBalance reports sums `standard` coins only -/
+theorem walletBalance_spendable {s : Store} {w : Wid} {mc : Nat} {b : Balance}
+    (h : walletBalance s w mc = some b) :
+    b.spendable = ((((coinsOf s w).filter (fun x => decide (confs s.syncedTo x.blk.height ≥ mc ∧
+        confs s.syncedTo x.blk.height ≥ x.cred.maturity))).filter
+      (fun x => decide (x.cred.cls = .standard))).map (·.cred.amt)).sum :=
+  MW.Lemmas.Ledger.walletBalance_spendable h
+
+/-- against the chain: it is the sum over the wallet's unspent outputs that are NOT deposits (with enough
+    confirmations, mature) -/
+theorem spendable_excludes_deposits {c : Ctx} {s : Store} {chain : List Block} (H : ObsHyp c s chain)
+    {w : Wid} (hw : (readyWallets s c.wallets).contains w = true) (mc : Nat) :
+    ∃ b, walletBalance s w mc = some b ∧
+      b.spendable = (((utxosOf c.own chain w).filter (fun x =>
+        decide (chain.length - 1 + 1 - x.height ≥ mc) && spendableAt c.p (chain.length - 1) x &&
+          !isDeposit x.cls)).map (·.amt)).sum :=
+  MW.Lemmas.Ledger.spendable_excludes_deposits H hw mc
+
+-- ------------------------------------------------------------------ 5. withdrawable exactly when consensus allows
+
+/-- an unspent deposit passes the wallet's maturity test (confirmations ≥ stored maturity) exactly when
+    consensus lets the next block spend it -/
+theorem withdrawable_iff {c : Ctx} {s : Store} {chain : List Block} (H : ObsHyp c s chain) {u : UCoin}
+    (hu : u ∈ (bookOf c.p c.own chain).L) :
+    confs s.syncedTo u.blk.height ≥ (creditOf c.p u).maturity ↔
+      spendableAt c.p (chain.length - 1) u.toSCoin = true :=
+  MW.Lemmas.Ledger.withdrawable_iff H hu
+
+/-- staking, rule unfolded: origin + (frozen + 1) − 1 < tip + 1, i.e. the next block (height
+    `chain.length`) may spend it iff origin + frozen + 1 ≤ that height -/
+theorem staking_withdrawable_iff {c : Ctx} {s : Store} {chain : List Block} (H : ObsHyp c s chain) {u : UCoin}
+    (hu : u ∈ (bookOf c.p c.own chain).L) {f : Nat} (hf : u.out.cls = .stk f) (hcb : u.cb = false) :
+    confs s.syncedTo u.blk.height ≥ (creditOf c.p u).maturity ↔ u.blk.height + f + 1 ≤ chain.length :=
+  MW.Lemmas.Ledger.staking_withdrawable_iff H hu hf hcb
+
+/-- the consensus side alone -/
+theorem spendableAt_stk (p : Params) {chain : List Block} (hpos : 0 < chain.length) {u : UCoin} {f : Nat}
+    (hf : u.out.cls = .stk f) (hcb : u.cb = false) :
+    spendableAt p (chain.length - 1) u.toSCoin = true ↔ u.blk.height + f + 1 ≤ chain.length :=
+  MW.Lemmas.Ledger.spendableAt_stk p hpos hf hcb
+
+/-- a staking output of a COINBASE is withdrawable exactly when BOTH the coinbase maturity and the frozen
+    period have passed (consensus: checkTxInMaturity AND the sequence lock) -/
+theorem staking_cb_withdrawable_iff {c : Ctx} {s : Store} {chain : List Block} (H : ObsHyp c s chain)
+    {u : UCoin} (hu : u ∈ (bookOf c.p c.own chain).L) {f : Nat} (hf : u.out.cls = .stk f) (hcb : u.cb = true) :
+    confs s.syncedTo u.blk.height ≥ (creditOf c.p u).maturity ↔
+      u.blk.height + c.p.cbMaturity ≤ chain.length ∧ u.blk.height + f + 1 ≤ chain.length :=
+  MW.Lemmas.Ledger.staking_cb_withdrawable_iff H hu hf hcb
+
+/-- the consensus side alone -/
+theorem spendableAt_stk_cb (p : Params) {chain : List Block} (hpos : 0 < chain.length) {u : UCoin} {f : Nat}
+    (hf : u.out.cls = .stk f) (hcb : u.cb = true) :
+    spendableAt p (chain.length - 1) u.toSCoin = true ↔
+      u.blk.height + p.cbMaturity ≤ chain.length ∧ u.blk.height + f + 1 ≤ chain.length :=
+  MW.Lemmas.Ledger.spendableAt_stk_cb p hpos hf hcb
+
+/-- MASSIP-2 binding: locked 0xfffffffe blocks -/
+theorem binding_new_withdrawable_iff {c : Ctx} {s : Store} {chain : List Block} (H : ObsHyp c s chain)
+    {u : UCoin} (hu : u ∈ (bookOf c.p c.own chain).L) {t : String} (hf : u.out.cls = .bindNew t)
+    (hcb : u.cb = false) :
+    confs s.syncedTo u.blk.height ≥ (creditOf c.p u).maturity ↔ u.blk.height + 0xfffffffe ≤ chain.length :=
+  MW.Lemmas.Ledger.binding_new_withdrawable_iff H hu hf hcb
+
+/-- old-style binding: no lock -/
+theorem binding_old_withdrawable {c : Ctx} {s : Store} {chain : List Block} (H : ObsHyp c s chain)
+    {u : UCoin} (hu : u ∈ (bookOf c.p c.own chain).L) {t : String} (hf : u.out.cls = .bindOld t)
+    (hcb : u.cb = false) : confs s.syncedTo u.blk.height ≥ (creditOf c.p u).maturity :=
+  MW.Lemmas.Ledger.binding_old_withdrawable H hu hf hcb
+
+-- ------------------------------------------------------------------ non-vacuity
+-- `dpChain`: genesis; h1 coinbase to the wallet; h2 `t1` = staking deposit frozen 1 (20), staking deposit
+-- frozen 2 (25), MASSIP-2 binding deposit (5), old-style binding deposit (4); h3 the coinbase `c3` pays a staking
+-- output frozen 3 (7) to the wallet; h4 `t2` withdraws the first staking deposit.
+-- `dpS` = the store the follower builds (connectAll); `dpHyp : ObsHyp dpCtx dpS dpChain ∧ "w1" ready`.
+
+example : uclassOf (.stk 3) ≠ .standard := deposit_not_standard _ (Or.inl rfl)
+
+example : uclassOf (.bindOld "O") ≠ .standard := deposit_not_standard _ (Or.inr rfl)
+
+/-- the hypotheses hold, the deposits are there -/
+example : Inv dpCtx dpS dpChain ∧ ChainValid dpCtx.own dpChain ∧
+    deposits dpCtx.own dpChain "w1" = [dpD0, dpD1, dpD2, dpD3, dpD4] := ⟨dpHyp.1.inv, dpValid, dpDeposits⟩
+
+/-- deposit_once: the withdrawn staking deposit has its record (withdrawn partition) -/
+example : AMap.get dpS.game ⟨"w1", false, true, "t1", 2, 0⟩ = some () :=
+  (deposit_once dpHyp.1.inv dpValid _).2 ⟨dpD0, dpD0_mem, rfl⟩
+
+/-- deposit_once, other direction: a record of the store comes from a deposit -/
+example : ∃ d ∈ deposits dpCtx.own dpChain "w1",
+    (⟨"w1", true, false, "t1", 2, 2⟩ : GameKey) = ⟨"w1", d.cls.isBinding, d.withdrawn, d.tx, d.height, d.idx⟩ :=
+  (deposit_once dpHyp.1.inv dpValid ⟨"w1", true, false, "t1", 2, 2⟩).1 (by decide)
+
+/-- deposit_record_unique: whatever record sits at t1:1 is the not-withdrawn staking record at height 2 -/
+example (gk : GameKey) (hg : AMap.get dpS.game gk = some ()) (ht : gk.tx = "t1") (hv : gk.vout = 1) :
+    gk = ⟨"w1", false, false, "t1", 2, 1⟩ :=
+  deposit_record_unique dpHyp.1.inv dpValid dpD1_mem gk hg ht hv
+
+/-- deposit_unique: no second record in the other partition -/
+example : AMap.get dpS.game ⟨"w1", false, false, "t1", 2, 0⟩ = none :=
+  deposit_unique dpHyp.1.inv dpValid dpD0_mem
+
+example : AMap.get dpS.game ⟨"w1", false, true, "t1", 2, 1⟩ = none :=
+  deposit_unique dpHyp.1.inv dpValid dpD1_mem
+
+example : "w1" = "w1" ∧ dpD1 = dpD1 := deposit_eq_of_outpoint dpValid dpD1_mem dpD1_mem rfl rfl
+
+/-- deposit_credit: the credit of the withdrawn deposit t1:0 — 20 to "s1", staking, maturity 2, spent -/
+example : ∃ cr, AMap.get dpS.credits ⟨"t1", ⟨2, "b2"⟩, 0⟩ = some cr ∧ cr.amt = 20 ∧ cr.sh = "s1" ∧
+    cr.cls = .staking ∧ cr.maturity = 1 + 1 ∧ cr.maturity - 1 = 1 ∧
+    (cr.spent = true ↔ ("t1", 0) ∈ spentOps (occs dpChain)) :=
+  deposit_credit_stk dpHyp.1.inv dpValid dpU0_created (f := 1) rfl rfl (by decide)
+
+example : ∃ cr, AMap.get dpS.credits ⟨"t1", ⟨2, "b2"⟩, 1⟩ = some cr ∧ cr.amt = 25 ∧ cr.sh = "s1" ∧
+    cr.cls = uclassOf (.stk 2) ∧ cr.maturity = (if false then max 1 (Cls.stk 2).maturity else (Cls.stk 2).maturity) % 2^32 ∧
+    (cr.spent = true ↔ ("t1", 1) ∈ spentOps (occs dpChain)) :=
+  deposit_credit dpHyp.1.inv dpValid dpU1_created rfl
+
+example : (AMap.get dpS.credits ⟨"t1", ⟨2, "b2"⟩, 0⟩).map (fun cr => (cr.amt, cr.sh, cr.cls, cr.maturity, cr.spent)) =
+    some (20, "s1", .staking, 2, true) := by decide
+
+example : ∃ (bh : BlkId) (cb : Bool) (cr : Credit),
+    AMap.get dpS.credits ⟨"t1", ⟨2, bh⟩, 2⟩ = some cr ∧ cr.amt = 5 ∧ cr.sh = "k1" ∧
+    cr.cls = uclassOf (.bindNew "T") ∧ cr.cls ≠ .standard ∧
+    cr.maturity = (if cb then max 1 (Cls.bindNew "T").maturity else (Cls.bindNew "T").maturity) % 2^32 ∧
+    (cr.spent = true ↔ false = true) :=
+  deposit_entry dpHyp.1.inv dpValid dpD2_mem
+
+/-- deposit_credit_stk_cb: the staking output of the coinbase c3 (frozen 3, coinbase maturity 1) has the
+    record and a credit with maturity max 1 (3 + 1) = 4 -/
+example : ∃ cr, AMap.get dpS.credits ⟨"c3", ⟨3, "b3"⟩, 1⟩ = some cr ∧ cr.amt = 7 ∧ cr.sh = "s1" ∧
+    cr.cls = .staking ∧ cr.maturity = max 1 (3 + 1) ∧
+    (cr.spent = true ↔ ("c3", 1) ∈ spentOps (occs dpChain)) :=
+  deposit_credit_stk_cb dpHyp.1.inv dpValid dpU4_created (f := 3) rfl rfl (by decide) (by decide)
+
+example : (AMap.get dpS.credits ⟨"c3", ⟨3, "b3"⟩, 1⟩).map (fun cr => (cr.amt, cr.sh, cr.cls, cr.maturity, cr.spent)) =
+    some (7, "s1", .staking, 4, false) := by decide
+
+example : AMap.get dpS.game ⟨"w1", false, false, "c3", 3, 1⟩ = some () :=
+  (unwithdrawn_iff dpHyp.1.inv dpValid dpD4_mem).2 rfl
+
+/-- withdrawn_iff / withdrawn_chain_iff: t1:0 is withdrawn (t2 in block 4 spends it), t1:1 is not -/
+example : AMap.get dpS.game ⟨"w1", false, true, "t1", 2, 0⟩ = some () :=
+  (withdrawn_iff dpHyp.1.inv dpValid dpD0_mem).2 rfl
+
+example : AMap.get dpS.game ⟨"w1", false, false, "t1", 2, 1⟩ = some () :=
+  (unwithdrawn_iff dpHyp.1.inv dpValid dpD1_mem).2 rfl
+
+example : ∃ b ∈ dpChain, ∃ t ∈ b.txs, t.cb = false ∧ ∃ x ∈ t.ins, x.tx = "t1" ∧ x.idx = 0 :=
+  (withdrawn_chain_iff dpD0_mem).1 rfl
+
+example : ∃ b ∈ dpChain, ∃ t ∈ b.txs, t.cb = false ∧ ∃ x ∈ t.ins, x.tx = "t1" ∧ x.idx = 0 :=
+  (withdrawn_shown_iff dpHyp.1.inv dpValid dpD0_mem).1 (by decide)
+
+/-- withdrawn_reverts: nothing spends the binding deposit t1:2 -/
+example : AMap.get dpS.game ⟨"w1", true, false, "t1", 2, 2⟩ = some () ∧
+    AMap.get dpS.game ⟨"w1", true, true, "t1", 2, 2⟩ = none :=
+  withdrawn_reverts dpHyp.1.inv dpValid dpD2_mem
+    (fun h => absurd ((withdrawn_chain_iff dpD2_mem).2 h) (by decide))
+
+/-- excluded: the wallet does list the unspent staking deposit t1:1, with class staking -/
+example : ∃ x ∈ coinsOf dpS "w1", x.tx = "t1" ∧ x.idx = 1 := by decide
+
+example (x : Coin) (hx : x ∈ coinsOf dpS "w1") (ht : x.tx = "t1") (hi : x.idx = 1) :
+    x.cred.cls = .staking ∧ x.cred.cls ≠ .standard :=
+  excluded dpHyp.1 hx dpD1_mem ht.symm hi.symm
+
+example (x : Coin) (hx : x ∈ coinsOf dpS "w1") :
+    ∃ u ∈ (bookOf dpCtx.p dpCtx.own dpChain).L, u.wallet = "w1" ∧ coinU dpCtx.p u = x ∧
+      (isDeposit u.out.cls = true → x.cred.cls ≠ .standard) :=
+  excluded_entry dpHyp.1 hx
+
+/-- standard_not_deposit: the wallet has a standard coin (t2:0, the withdrawn 20) -/
+example : ∃ x ∈ coinsOf dpS "w1", x.cred.cls = .standard := by decide
+
+example (x : Coin) (hx : x ∈ coinsOf dpS "w1") (hs : x.cred.cls = .standard) :
+    ∀ d ∈ deposits dpCtx.own dpChain "w1", ¬ (d.tx = x.tx ∧ d.idx = x.idx) :=
+  standard_not_deposit dpHyp.1 hx hs
+
+/-- the balance: 61 in total, spendable only the 20 that are no deposit -/
+example : walletBalance dpS "w1" 1 = some ⟨61, 20, 25, 4⟩ := dpBalance
+
+example : (⟨61, 20, 25, 4⟩ : Balance).spendable = ((((coinsOf dpS "w1").filter (fun x =>
+      decide (confs dpS.syncedTo x.blk.height ≥ 1 ∧ confs dpS.syncedTo x.blk.height ≥ x.cred.maturity))).filter
+    (fun x => decide (x.cred.cls = .standard))).map (·.cred.amt)).sum :=
+  walletBalance_spendable dpBalance
+
+example : ∃ b, walletBalance dpS "w1" 1 = some b ∧
+    b.spendable = (((utxosOf dpCtx.own dpChain "w1").filter (fun x =>
+      decide (dpChain.length - 1 + 1 - x.height ≥ 1) && spendableAt dpCtx.p (dpChain.length - 1) x &&
+        !isDeposit x.cls)).map (·.amt)).sum :=
+  spendable_excludes_deposits dpHyp.1 dpHyp.2 1
+
+/-- withdrawable: the staking deposit t1:1 (height 2, frozen 2) is withdrawable by block 5 = chain.length -/
+example : confs dpS.syncedTo 2 ≥ (creditOf dpCtx.p dpU1).maturity ↔
+    spendableAt dpCtx.p (dpChain.length - 1) dpU1.toSCoin = true :=
+  withdrawable_iff dpHyp.1 dpU1_mem
+
+example : confs dpS.syncedTo 2 ≥ (creditOf dpCtx.p dpU1).maturity :=
+  (staking_withdrawable_iff dpHyp.1 dpU1_mem (f := 2) rfl rfl).2 (by decide)
+
+example : spendableAt dpCtx.p (dpChain.length - 1) dpU1.toSCoin = true :=
+  (spendableAt_stk dpCtx.p (chain := dpChain) (by decide) (u := dpU1) (f := 2) rfl rfl).2 (by decide)
+
+/-- one block earlier it was not: height 2 + frozen 2 + 1 = 5 > 4 -/
+example : ¬ spendableAt dpCtx.p (dpChain.dropLast.length - 1) dpU1.toSCoin = true :=
+  fun h => absurd ((spendableAt_stk dpCtx.p (chain := dpChain.dropLast) (by decide) (u := dpU1) (f := 2)
+    rfl rfl).1 h) (by decide)
+
+/-- the staking output of the coinbase c3 (height 3, frozen 3): the coinbase is mature (3 + 1 ≤ 5) but the
+    frozen period has not passed (3 + 3 + 1 > 5): NOT withdrawable -/
+example : ¬ confs dpS.syncedTo 3 ≥ (creditOf dpCtx.p dpU4).maturity :=
+  fun h => absurd ((staking_cb_withdrawable_iff dpHyp.1 dpU4_mem (f := 3) rfl rfl).1 h).2 (by decide)
+
+example : dpU4.blk.height + dpCtx.p.cbMaturity ≤ dpChain.length := by decide
+
+example : ¬ spendableAt dpCtx.p (dpChain.length - 1) dpU4.toSCoin = true :=
+  fun h => absurd ((spendableAt_stk_cb dpCtx.p (chain := dpChain) (by decide) (u := dpU4) (f := 3)
+    rfl rfl).1 h).2 (by decide)
+
+/-- the binding deposit t1:2 stays locked -/
+example : ¬ confs dpS.syncedTo 2 ≥ (creditOf dpCtx.p dpU2).maturity :=
+  fun h => absurd ((binding_new_withdrawable_iff dpHyp.1 dpU2_mem (t := "T") rfl rfl).1 h) (by decide)
+
+/-- the old-style binding deposit t1:3 is withdrawable at once -/
+example : confs dpS.syncedTo 2 ≥ (creditOf dpCtx.p dpU3).maturity :=
+  binding_old_withdrawable dpHyp.1 dpU3_mem (t := "O") rfl rfl
 
 end MW.Props.C10
